@@ -303,6 +303,41 @@ def rule_flag(program, ctx, prop=P, rid="C20.flag"):
             ctx.bad(finding_at(prop, rid, sp, "should_run_notifier no longer combines the worker count with run_notifier"))
 
 
+def rule_unregister(program, ctx, prop=P, rid="C20.unregister"):
+    ctx.rule(
+        rid,
+        "a peer that went away leaves the hub's table: in NotifyServer.handle_notify every way out of the function after `self.connections[addr] = writer` - normal, or an "
+        "exception / cancellation raised by an await - passes `del self.connections[addr]`; a dead writer left in the table makes every later broadcast raise at its "
+        "drain() before the remaining peers are written (their ids are lost). Awaits between the relay loop and the removal (`await writer.wait_closed()` re-raises the "
+        "connection's own error) are such a way out",
+        floor=1,
+    )
+    fn = program.func("nostr_relay.notifier:NotifyServer.handle_notify")
+    cfg = cfg_of(fn)
+    reg = cfg.stmt_nodes(lambda s: isinstance(s, ast.Assign) and any(isinstance(t, ast.Subscript) and dotted(t.value) == "self.connections" for t in s.targets), kinds=("stmt",))
+    rem = cfg.stmt_nodes(lambda s: (isinstance(s, ast.Delete) and any(isinstance(t, ast.Subscript) and dotted(t.value) == "self.connections" for t in s.targets))
+                         or any(isinstance(c.func, ast.Attribute) and c.func.attr in ("pop", "discard", "remove") and dotted(c.func.value) == "self.connections" for c in own_calls(s)), kinds=("stmt",))
+    if not reg or not rem:
+        ctx.bad(finding_func(prop, rid, fn, "handle_notify no longer registers / unregisters the peer in self.connections", text="def handle_notify(...) :: connections"))
+        return
+
+    def edge_ok(n, m, kinds):
+        if kinds & set(NORMAL):
+            return True
+        st = cfg.ast_of(n)
+        # only suspension points are taken to raise (I/O error of this connection, cancellation); logging and transport.close() are not
+        return st is not None and any(isinstance(x, (ast.Await, ast.AsyncFor, ast.AsyncWith)) for x in ast.walk(st))
+
+    starts = [m for r in reg for m in cfg.succ(r, kinds=set(NORMAL))]
+    path = cfg.find_path(starts, [cfg.exit, cfg.raise_exit, cfg.cancel_exit], avoid_nodes=rem, edge_ok=edge_ok)
+    if path:
+        last = next((cfg.ast_of(n) for n in reversed(path[:-1]) if cfg.ast_of(n) is not None), fn)
+        ctx.bad(finding_at(prop, rid, last, "handle_notify can end (exception or cancellation at this await) without removing the peer from self.connections: the closed writer stays "
+                           "in the table and breaks the fan-out loop of every later id", path=cfg.describe_path(path)[-5:]))
+    else:
+        ctx.ok(rid, cfg.ast_of(rem[0]), "every exit after the registration passes the removal")
+
+
 def run(program, ctx):
     from ..lib import rule_awaited
 
@@ -313,6 +348,7 @@ def run(program, ctx):
     rule_announce(program, ctx)
     rule_hub(program, ctx)
     rule_flag(program, ctx)
+    rule_unregister(program, ctx)
     from . import c06
 
     c06.rule_reap(program, ctx, prop=P, rid="C20.reap")
